@@ -1,0 +1,17 @@
+//go:build verif
+// +build verif
+
+package route
+
+import (
+	"github.com/grafana/carbon-relay-ng/persister"
+	"github.com/grafana/metrictank/schema"
+)
+
+// VerifGetSchemas exposes getSchemas (verification harness only)
+func VerifGetSchemas(file string) (persister.WhisperSchemas, error) { return getSchemas(file) }
+
+// VerifParseMetric exposes parseMetric (verification harness only)
+func VerifParseMetric(buf []byte, schemas persister.WhisperSchemas, orgId int) (*schema.MetricData, error) {
+	return parseMetric(buf, schemas, orgId)
+}
